@@ -231,6 +231,53 @@ func c02(c *Ctx) {
 			}
 		}
 		if cell == nil {
+			// a wrapper may delegate to a sibling wrapper (judged itself), handing it a literal that forwards the
+			// updates its own callback returned
+			delegated := ""
+			for _, cs := range engine.Calls(f) {
+				sc := cs.Common().StaticCallee()
+				if sc == nil || cs.Instr.Parent() != f {
+					continue
+				}
+				if o := sc.Origin(); o != nil {
+					sc = o
+				}
+				sib := false
+				for _, nm := range []string{"stateDBWrite", "stateDBWriteResult", "userDBWrite", "userDBWriteResult"} {
+					if engine.ShortName(sc) == nm && sc != f {
+						sib = true
+					}
+				}
+				if !sib {
+					continue
+				}
+				for _, a := range cs.Common().Args {
+					lit := engine.FuncValue(a)
+					if lit == nil || lit.Parent() != f || len(lit.Blocks) == 0 {
+						continue
+					}
+					fw := true
+					for _, ret := range engine.Returns(lit) {
+						if len(ret.Results) == 0 || !engine.AnyBackward(ret.Results[0], engine.FlowOpts{Loads: true}, func(v ssa.Value) bool {
+							if ex, ok := v.(*ssa.Extract); ok && ex.Index == 0 {
+								if call, ok := ex.Tuple.(*ssa.Call); ok {
+									return engine.AccessPath(call.Call.Value) != "" || isParamLoad(call.Call.Value)
+								}
+							}
+							return false
+						}) {
+							fw = false
+						}
+					}
+					if fw {
+						delegated = engine.ShortName(sc)
+					}
+				}
+			}
+			if delegated != "" {
+				R.Check(true, "R02.2", name+"|broadcast-on-success", P.Pos(f.Pos()), "delegates to "+delegated+", forwarding the updates of its callback", "")
+				continue
+			}
 			R.Fail("R02.2", name+"|updates-cell", P.Pos(f.Pos()), "no local []Update variable receives the transaction's updates")
 			continue
 		}
@@ -707,6 +754,43 @@ func broadcastsParam(fn *ssa.Function) (int, bool) {
 				cut[cs.Instr] = true
 			}
 		}
+		// the broadcast made inside a function literal that is handed to a call of fn (the second Write transaction):
+		// that call stands for the broadcast when every nil-error return of the literal passes it
+		for _, a := range cc.Args {
+			lit := engine.FuncValue(a)
+			if lit == nil || lit.Parent() != fn || len(lit.Blocks) == 0 {
+				continue
+			}
+			inner := map[ssa.Instruction]bool{}
+			for _, ics := range engine.Calls(lit) {
+				if ics.Instr.Parent() != lit {
+					continue
+				}
+				icc := ics.Common()
+				inm := ""
+				if icc.IsInvoke() {
+					inm = icc.Method.Name()
+				} else if sc := icc.StaticCallee(); sc != nil {
+					inm = engine.ShortName(sc)
+				}
+				if (inm == "QueueOrApplyStateUpdate" || inm == "queueStateUpdate") && len(icc.Args) > 0 &&
+					engine.AnyBackward(icc.Args[len(icc.Args)-1], engine.FlowOpts{Loads: true}, func(v ssa.Value) bool { return v == ssa.Value(p) }) {
+					inner[ics.Instr] = true
+				}
+			}
+			if len(inner) == 0 {
+				continue
+			}
+			all := true
+			for _, ret := range engine.Returns(lit) {
+				if engine.ReachesAvoiding(lit, ret, inner, nil) {
+					all = false
+				}
+			}
+			if all {
+				cut[cs.Instr] = true
+			}
+		}
 	}
 	if len(cut) == 0 {
 		return 0, false
@@ -726,7 +810,16 @@ func broadcastsParam(fn *ssa.Function) (int, bool) {
 			continue
 		}
 		bi, ok := call.Call.Value.(*ssa.Builtin)
-		if !ok || bi.Name() != "len" || call.Call.Args[0] != ssa.Value(p) {
+		isP := call.Call.Args[0] == ssa.Value(p)
+		if ld, isLd := call.Call.Args[0].(*ssa.UnOp); isLd && !isP {
+			// the parameter kept in a cell because a function literal captures it
+			if al, isAl := ld.X.(*ssa.Alloc); isAl {
+				if sts := engine.StoresTo(al); len(sts) == 1 && sts[0].Val == ssa.Value(p) {
+					isP = true
+				}
+			}
+		}
+		if !ok || bi.Name() != "len" || !isP {
 			continue
 		}
 		if k, ok := cmp.Y.(*ssa.Const); !ok || k.Value == nil || k.Value.ExactString() != "0" {
